@@ -27,6 +27,7 @@ from ..runner import Result, Violation
 from . import C07
 
 LIBGR = os.path.join(WORK, "libgr.so")
+HIST_REPEAT = 6   # leg 4: the whole list is worked through this many times by the one process
 
 
 def ensure_libgr():
@@ -257,21 +258,24 @@ def execute(cases_, tier, seed):
         orders = (("list-order", list(cases_)), ("reverse-order", list(cases_[::-1])))
         from concurrent.futures import ThreadPoolExecutor as _TPE
         with _TPE(max_workers=2) as ex:
-            hres = list(ex.map(lambda o: adapter._run_chunk([{"id": c["key"], "settings": c["settings"], "ops": [{"root": c["doc"]}], "want": ["tokens"]} for c in o[1]], env0), orders))
+            hres = list(ex.map(lambda o: adapter._run_chunk([{"id": "%s|r%d" % (c["key"], r), "settings": c["settings"], "ops": [{"root": c["doc"]}], "want": ["tokens"]}
+                                                             for r in range(HIST_REPEAT) for c in o[1]], env0), orders))
         for (label, order), ha in zip(orders, hres):
+          for r in range(HIST_REPEAT):
             for pos, c in enumerate(order):
-                a = ha.get(c["key"]) or {}
-                op = (a.get("ops") or [{}])[0]
-                tok = a.get("tokens") if op.get("status") == "ok" else "<%s:%s>" % (op.get("status"), op.get("msg"))
-                n_hist += 1
-                res.transitions += 1
-                if a.get("abort") and not (ans[c["key"] + "|base"]).get("abort"):
-                    continue   # an abort ends the process; the remainder runs in a fresh one (the history restarts), which is still a history
-                if tok != base_tokens[c["key"]]:
-                    res.violations.append(Violation(c["key"], "process-history", "%s: output differs when the document is converted as number %d of one process (%s) from its output in another process"
-                                                    % (c["id"], pos + 1, label), c, expected="byte-identical output whatever the process converted before",
-                                                    observed={"order": label, "position": pos + 1, "first_difference": _first_diff(base_tokens[c["key"]], tok)},
-                                                    features={"id": c["id"].split(":")[0]}, items=[label]))
+                  pos += r * len(order)
+                  a = ha.get("%s|r%d" % (c["key"], r)) or {}
+                  op = (a.get("ops") or [{}])[0]
+                  tok = a.get("tokens") if op.get("status") == "ok" else "<%s:%s>" % (op.get("status"), op.get("msg"))
+                  n_hist += 1
+                  res.transitions += 1
+                  if a.get("abort") and not (ans[c["key"] + "|base"]).get("abort"):
+                      continue   # an abort ends the process; the remainder runs in a fresh one (the history restarts), which is still a history
+                  if tok != base_tokens[c["key"]]:
+                      res.violations.append(Violation(c["key"], "process-history", "%s: output differs when the document is converted as number %d of one process (%s) from its output in another process"
+                                                      % (c["id"], pos + 1, label), c, expected="byte-identical output whatever the process converted before",
+                                                      observed={"order": label, "position": pos + 1, "first_difference": _first_diff(base_tokens[c["key"]], tok)},
+                                                      features={"id": c["id"].split(":")[0]}, items=[label]))
     # 3b: the front-ends in fresh processes under hash seeds: the real cargo-typify binary, and rustc expanding the real macro
     # (its MacroSettings maps and the impls HashSet are filled by serde_tokenstream in hash order)
     n_fe = 0
@@ -331,7 +335,7 @@ def execute(cases_, tier, seed):
                       "hash_seed_leg": "seed enumeration, not exhaustive over the key space; excluded from the exhaustive claim",
                       "hash_collection_sites_audit": sites})
     res.samples = [{"id": c["id"], "doc": c["doc"]} for c in cases_[:: max(1, len(cases_) // 4)]][:4]
-    res.bound = "tier=%s: %d documents; key orders at <=%d object nodes (all permutations for <=4 keys) + 3 whitespace styles (cap %d variants/document); %d hash seeds; every document also as part of one process over the whole list in 2 orders" % (
+    res.bound = "tier=%s: %d documents; key orders at <=%d object nodes (all permutations for <=4 keys) + 3 whitespace styles (cap %d variants/document); %d hash seeds; every document also as part of one process over the whole list in 2 orders, 6 passes each" % (
         tier, len(cases_), k, cap, nseeds)
     res.assumptions = ["std's RandomState takes its keys from getrandom(), interposed by LD_PRELOAD (verified at setup by a two-seed self-test)",
                        "schemars / serde_json are built without preserve_order, so parsed objects are BTreeMaps"]
